@@ -111,6 +111,7 @@ impl Gen {
                 "reload" => (35, 8, 5, 5, 10, 18, 3, 1, 12, 3, 0),
                 "malformed" => (40, 5, 10, 5, 8, 25, 2, 1, 2, 4, 0),
                 "ties" => (42, 8, 5, 5, 10, 22, 2, 1, 2, 3, 0),
+                "py" => (45, 10, 0, 0, 12, 24, 4, 0, 4, 0, 3),
                 _ => (40, 8, 6, 6, 12, 20, 0, 1, 0, 4, 3),
             };
         let total = w_cap + w_mkt + w_create + w_place + w_cancel + w_modify + w_toggle + w_reset + w_reload + w_red + w_time;
@@ -132,7 +133,7 @@ impl Gen {
                 ops.push(Op::Time(g.t));
             }
         };
-        let offgrid = prof == "malformed";
+        let offgrid = prof == "malformed" || prof == "py";
         if pick(w_cap) {
             advance(self, &mut ops);
             let s = self.chance(0.5);
@@ -173,7 +174,7 @@ impl Gen {
                 if self.chance(0.5) {
                     advance(self, &mut ops);
                 }
-                if self.chance(0.5) {
+                if prof == "py" || self.chance(0.5) {
                     ops.push(Op::Cancel(i));
                 } else {
                     ops.push(Op::Ev(Ev::Cancel(i)));
@@ -183,7 +184,7 @@ impl Gen {
             if let Some(i) = self.pick_id(live, Some(Status::Active)) {
                 advance(self, &mut ops);
                 let (p, v) = self.modify_args(live, i);
-                if self.chance(0.5) {
+                if prof == "py" || self.chance(0.5) {
                     ops.push(Op::Modify(i, p, v));
                 } else {
                     ops.push(Op::Ev(Ev::Modify(i, p, v)));
@@ -195,7 +196,7 @@ impl Gen {
         } else if pick(w_reset) {
             ops.push(Op::ResetVol);
         } else if pick(w_reload) {
-            let m = ["mem", "compact", "pretty"][self.rng.gen_range(0..3)];
+            let m = if prof == "py" { ["compact", "pretty"][self.rng.gen_range(0..2)] } else { ["mem", "compact", "pretty"][self.rng.gen_range(0..3)] };
             ops.push(Op::Reload(m.to_string()));
         } else if pick(w_red) {
             // a redundant request on an order in an arbitrary status
